@@ -5,19 +5,18 @@ import os
 
 HERE = os.path.dirname(os.path.dirname(os.path.abspath(__file__)))
 
-CLAIMED = {
-    "C07": {
-        "text": "Coq theorems over the rule table regenerated from the source on every run (rule table = stated TEI rules; "
-                "idempotence for all trees incl. adjacent/empty text nodes; frame: only whitespace changes; preserve subtrees "
-                "untouched), the tree walk hand-modelled and tied by a correspondence check against Document.reduce_whitespace "
-                "and ParserOptions(reduce_whitespace=True), plus a direct search with the extracted-by-evaluation spec as oracle.",
-        "design_ref": "DESIGN.md 4/C07",
-        "note": "Trusted: Coq kernel + vm_compute, translator for _reduce_whitespace_content / whitespace table, hand-written "
-                "model of _reduce_whitespace_of_descendants + merge_text_nodes (tied by differential testing), lxml parser.",
-        "technique": "Coq proof (induction over trees) over translator-generated rule table + model/implementation correspondence",
-    },
-}
+def load_claimed():
+    """harness/props/<id>.meta.json: {"text":..., "design_ref":..., "note":..., "technique":..., ["category":...]}"""
+    out = {}
+    d = os.path.join(HERE, "harness", "props")
+    for f in sorted(os.listdir(d)):
+        if f.endswith(".meta.json"):
+            with open(os.path.join(d, f)) as fh:
+                out[f[:-len(".meta.json")].upper()] = json.load(fh)
+    return out
 
+
+CLAIMED = load_claimed()
 PENDING_REASON = "not yet claimed: the model and theorems for this property are still being built (see DESIGN.md section 9)"
 
 
